@@ -149,6 +149,12 @@ def random_connected_graph(rng, nmin=1, nmax=6, multi=True, large_ok=False):
     e = [(perm[i], perm[j], k) for i, j, k in e]
     return mk_graph(n, e, rng), fam
 
+def add_isolated(rng, G, k=None):
+    """the same multigraph plus k isolated vertices (new names sorted in: ids are positions in sorted-name order)"""
+    k = k or rng.randint(1, 2); pool = [x for x in ("iso_a", "Z_iso", "0iso", "mm_iso") if x not in G["names"]][:k]
+    names = sorted(G["names"] + pool); pos = {nm: i for i, nm in enumerate(names)}
+    return {"n": len(names), "names": names, "edges": sorted([min(pos[G["names"][a]], pos[G["names"][b]]), max(pos[G["names"][a]], pos[G["names"][b]]), m] for a, b, m in G["edges"])}
+
 def thin_cut_game(rng):
     """two dense clusters (no vertex of small valence) joined by a thin cut, and a sparse divisor: a little debt and a little wealth near the cut"""
     a = rng.choice([2, 3, 3, 4]); b = rng.choice([2, 3, 3, 4]); n = a + b
